@@ -24,6 +24,9 @@ WORK = os.path.join(ROOT, ".work")
 EVID = os.path.join(ROOT, "evidence")
 FINDINGS = os.path.join(ROOT, "known_findings.json")
 JAR_CP = "/opt/veriftools/tla/tla2tools.jar:/opt/veriftools/tla/CommunityModules-deps.jar"
+# The repository under test. Always /repo for registered checks; tools/mutant_run.sh points a scratch copy
+# of /verif at a scratch worktree (it rewrites harness/Cargo.toml and sets VERIF_REPO accordingly).
+REPO = os.environ.get("VERIF_REPO", "/repo")
 
 
 class ToolError(Exception):
@@ -58,7 +61,7 @@ def cargo_build(bins, release=False, timeout=1800):
     harness/.cargo/config.toml rustflags --cfg sozu_verif). Returns {bin: path}."""
     lock = os.path.join(HARNESS, "Cargo.lock")
     if not os.path.exists(lock):
-        shutil.copy("/repo/Cargo.lock", lock)
+        shutil.copy(os.path.join(REPO, "Cargo.lock"), lock)
     cmd = ["cargo", "build", "--offline", "-q"]
     if release:
         cmd.append("--release")
@@ -122,7 +125,7 @@ _RE_COV = re.compile(r"^<(\w+) line (\d+), col (\d+) to line (\d+), col (\d+) of
 
 
 def tlc(module, cfg, pid, workers=8, timeout=900, simulate=None, depth=None, coverage=False,
-        extra=None, env_extra=None, java_opts=None, xmx="8g", want_replay=False, replay_sink=None):
+        extra=None, env_extra=None, java_opts=None, xmx="4g", want_replay=False, replay_sink=None):
     """Run TLC on spec/<module>.tla with spec/<cfg>. Returns a dict:
        generated, distinct, queue, depth, violated (name or None), error (str or None),
        replays (list of parsed JSON) if want_replay, actions {name: (distinct, total)} if coverage,
